@@ -6,7 +6,7 @@ use crate::verif_common::*;
 use std::borrow::Cow;
 use uuid::Uuid;
 
-// @h c12_pack_info_w | PackInfo::serialize; PString::serialize_string_padded; Uuid/Size/SizedOffset/PackId/PackKind serialize | every field; location of concrete length l in {0,1,16,17,213} (case split; bytes symbolic for l <= 17) | writes == uuid(16) pack size(8) check-info sized offset(8) pack id(2) kind(1) group(1) free data id(2), i.e. 38 bytes that do not depend on the location, then location length byte, bytes, zero padding up to 213: 252 bytes in all | l <= 213 (first 32 location bytes compared)
+// @h c12_pack_info_w | PackInfo::serialize; PString::serialize_string_padded; Uuid/Size/SizedOffset/PackId/PackKind serialize | every field; location of concrete length l in {0,1,16,17,213} (case split; ASCII bytes symbolic for l <= 17) and of 2 and 3 bytes starting with a 2-byte UTF-8 character (byte count != char count) | writes == uuid(16) pack size(8) check-info sized offset(8) pack id(2) kind(1) group(1) free data id(2), i.e. 38 bytes that do not depend on the location, then location length byte, bytes, zero padding up to 213: 252 bytes in all | l <= 213 (first 32 location bytes compared)
 // @h c12_pack_info_r | PackInfo::parse; PString::parse; SmallString::from_byte_vec | reference encoding, location length l in {0,1,2,9}, 2 byte locations are any two bytes (multi byte UTF-8 or invalid), all other fields symbolic | fields recovered, exactly 252 bytes consumed whatever the location length, invalid UTF-8 is an error | l <= 9; a parser over the first 48 bytes of a zero padded 252 byte block (the real SliceParser: c14_prim_read)
 
 fn any16() -> [u8; 16] {
@@ -19,7 +19,7 @@ fn kind_of(k: u8) -> (PackKind, u8) {
     match k { 0 => (PackKind::Manifest, b'm'), 1 => (PackKind::Directory, b'd'), 2 => (PackKind::Content, b'c'), _ => (PackKind::Container, b'C') }
 }
 
-fn pack_info_w(l: usize) {
+fn pack_info_w(l: usize, accent: bool) {
     let uuid = any16();
     let size: u64 = kani::any();
     let off: u64 = kani::any();
@@ -35,9 +35,14 @@ fn pack_info_w(l: usize) {
     let mut loc = [b'x'; 213];
     let mut i = 0;
     while i < l && i < 17 {
-        let c: u8 = kani::any();
-        kani::assume(c >= 0x20 && c < 0x7F);
-        loc[i] = c;
+        if accent && i < 2 {
+            // "\u{e9}" (2 bytes, 1 char): byte count and char count differ
+            loc[i] = if i == 0 { 0xC3 } else { 0xA9 };
+        } else {
+            let c: u8 = kani::any();
+            kani::assume(c >= 0x20 && c < 0x7F);
+            loc[i] = c;
+        }
         i += 1;
     }
     let location = if l <= 16 {
@@ -71,7 +76,7 @@ macro_rules! pack_info_w_inst {
         wharness! {
             #[kani::unwind(40)]
             #[kani::stub(std::str::from_utf8, crate::verif_common::stub_from_utf8)]
-            fn $name() { pack_info_w($l) }
+            fn $name() { pack_info_w($l, false) }
         }
     };
 }
@@ -80,6 +85,16 @@ pack_info_w_inst!(c12_pack_info_w_l1, 1);
 pack_info_w_inst!(c12_pack_info_w_l16, 16);
 pack_info_w_inst!(c12_pack_info_w_l17, 17);
 pack_info_w_inst!(c12_pack_info_w_l213, 213);
+wharness! {
+    #[kani::unwind(40)]
+    #[kani::stub(std::str::from_utf8, crate::verif_common::stub_from_utf8)]
+    fn c12_pack_info_w_l2_accent() { pack_info_w(2, true) }
+}
+wharness! {
+    #[kani::unwind(40)]
+    #[kani::stub(std::str::from_utf8, crate::verif_common::stub_from_utf8)]
+    fn c12_pack_info_w_l3_accent() { pack_info_w(3, true) }
+}
 
 /// A parser over a 252 byte block given by its first 48 bytes (the rest is zero): what
 /// `PackInfo::parse` needs, without a 252 byte array (which CBMC does not track per element).
